@@ -11,7 +11,7 @@ HERE = os.path.dirname(os.path.abspath(__file__))
 with open(os.path.join(HERE, "latex682.json")) as _f:
     LATEX = json.load(_f)          # command text -> code points (snapshot of the documented table)
 
-PIECES = {"x": "R", "A": "in", "B": "t", "M": "mathbb", "p": "pagenumber", "1": "1", "sp": " ", "^": "^", "_": "_",
+PIECES = {"x": "e", "A": "in", "B": "t", "M": "mathbb", "p": "pagenumber", "1": "1", "sp": " ", "^": "^", "_": "_",
           ">": ">", "<": "<", "=": "=", "nl": "\n", "bs": "\\", "G": "{R}", "E": "{}", "H": "{\\in}", ".": ".", "T": "\\totalpage", "F": "\\pagefield"}
 
 
